@@ -266,7 +266,7 @@ func (p c15) RunBatch(ctx *core.Ctx, batch int) {
 		// big nodes: value lists of up to a few thousand members and left-deep chains of as many
 		// clauses (every size a limit written in the tree under test names is met from both
 		// sides): still one call per node, with the children's results, and nothing else
-		for _, n := range gen.Sizes([]int{2, 17, 255, 256, 257, 1000, 1001, 1024, 1025, 4097}, 2, 5000) {
+		for _, n := range gen.Sizes([]int{0, 1, 2, 3, 17, 255, 256, 257, 1000, 1001, 1024, 1025, 4097}, 0, 5000) {
 			n := n
 			items := make([]*expr.Expression, n)
 			for i := range items {
